@@ -131,7 +131,7 @@ func init() {
 	}
 	c08 := []string{"srv-req-read-close", "srv-req-close", "srv-req-close-smallpipe", "srv-two-seq", "srv-pipelined", "srv-panics", "srv-half-then-close",
 		"srv-4bytes-then-close", "srv-stray-response", "srv-hookfail-req", "srv-hookok-seq", "srv-garbage", "srv-undecodable", "srv-toobig", "srv-req-then-garbage", "srv-slow-close", "srv-halfclose", "srv-3pipelined-close"}
-	c08long := []string{"srv-refused-requests-a", "srv-refused-requests-b", "srv-hookfail-2conn"} // long scripts: delay bounding
+	c08long := []string{"srv-2conn-big-slow-reader", "srv-refused-requests-a", "srv-refused-requests-b", "srv-hookfail-2conn"} // long scripts: delay bounding
 	c08multi := []string{"srv-2conn-good-bad", "srv-2conn-good-abrupt", "srv-3conn", "srv-4pipelined-read1-close"}
 	plans["C08"] = Plan{
 		Post:  mergeSeqEvidence("C08"),
@@ -152,7 +152,7 @@ func init() {
 		Thorough:    cat(split(16, db(1500, B{{2, 0}, {3, 0}}, "srv-2conn-cold")), split(16, db(1500, B{{2, 0}}, "srv-3conn-cold")), split(16, pb(1500, B{{0, 0}}, "srv-2conn-cold"))),
 	}
 	c10mw := []string{"cli-par-2-libmw", "cli-par-3-libmw"}
-	c10 := []string{"cli-stray-requests", "cli-cancel-then-next", "cli-timeout-seq", "cli-par-2", "cli-par-cancel", "cli-par-3", "cli-negotiate-cancel"}
+	c10 := []string{"cli-bytes-seq-par", "cli-bytes-cancel", "cli-stray-requests", "cli-cancel-then-next", "cli-timeout-seq", "cli-par-2", "cli-par-cancel", "cli-par-3", "cli-negotiate-cancel"}
 	plans["C10"] = Plan{
 		Level: "model_checking",
 		Rule: "all schedules of N callers sharing one real kmipclient.Client against scripted echo servers (response = request identifier), " +
@@ -162,7 +162,7 @@ func init() {
 		Quick:       cat(db(100, B{{2, 0}, {3, 0}}, c10...), pb(100, B{{0, 0}, {1, 0}}, "cli-par-2"), db(100, B{{1, 0}, {2, 0}}, c10mw...)),
 		Thorough:    cat(db(1500, B{{3, 0}, {4, 0}}, c10...), pb(1500, B{{0, 0}, {1, 0}, {2, 0}}, c10...), db(1500, B{{3, 0}}, c10mw...), pb(1500, B{{0, 0}, {1, 0}}, c10mw...)),
 	}
-	c11 := []string{"clf-close-during-call", "clf-close-during-call-srvclose", "clf-close-during-par", "clf-seq3", "clf-seq3-srvclose", "clf-seq3-dial", "clf-negotiate", "clf-par-2", "clf-close-only"}
+	c11 := []string{"clf-negotiate-nocommon", "clf-close-during-call", "clf-close-during-call-srvclose", "clf-close-during-par", "clf-seq3", "clf-seq3-srvclose", "clf-seq3-dial", "clf-negotiate", "clf-par-2", "clf-close-only"}
 	plans["C11"] = Plan{
 		Level: "fault_enumeration",
 		Rule: "every Read/Write of the client side of every connection (and every dial / server reply) is an environment choice point: ok, EOF, reset, closed, " +
@@ -195,17 +195,17 @@ func init() {
 			"directly on one BatchExecutor and through two real server connections. distinct = distinct (scenario, outcome) classes. " + boundingNote,
 		Assumptions: []string{netAssumption, fifoAssumption, "placeholder accesses are declared to the scheduler as conflicting accesses so that the state cache cannot merge their orders"},
 		Keep:        hasPrefix("fail:placeholder", "panic:"),
-		Quick: cat(pb(100, B{{0, 0}}, "ph-seq-exhaustive-t", "ph-seq-exhaustive-mw"), pb(100, B{{2, 0}, {3, 0}}, "ph-conc-2", "ph-conc-2-mw", "ph-conc-2-fail", "ph-conc-2-after-undo", "ph-conc-2-after-count", "ph-conc-2-after-version",
+		Quick: cat(pb(100, B{{0, 0}}, "ph-seq-exhaustive-t", "ph-seq-exhaustive-mw"), pb(100, B{{2, 0}, {3, 0}}, "ph-conc-2", "ph-conc-2-mw", "ph-conc-2-mw3", "ph-conc-2-fail", "ph-conc-2-after-undo", "ph-conc-2-after-count", "ph-conc-2-after-version",
 			"ph-conc-2-after-faileditem", "ph-conc-2-after-panic", "ph-conc-2-after-ok", "ph-conc-2-after-undo-undo"), pb(100, B{{1, 0}, {2, 0}}, "ph-conc-3"),
 			db(100, B{{2, 0}}, "ph-srv-seq", "ph-srv-2conn")),
-		Thorough: cat(pb(1500, B{{0, 0}}, "ph-seq-exhaustive-x", "ph-seq-exhaustive-mw"), pb(1500, B{{3, 0}, {4, 0}, {5, 0}}, "ph-conc-2", "ph-conc-2-mw", "ph-conc-2-fail", "ph-conc-2-after-undo", "ph-conc-2-after-count", "ph-conc-2-after-version",
+		Thorough: cat(pb(1500, B{{0, 0}}, "ph-seq-exhaustive-x", "ph-seq-exhaustive-mw"), pb(1500, B{{3, 0}, {4, 0}, {5, 0}}, "ph-conc-2", "ph-conc-2-mw", "ph-conc-2-mw3", "ph-conc-2-fail", "ph-conc-2-after-undo", "ph-conc-2-after-count", "ph-conc-2-after-version",
 			"ph-conc-2-after-faileditem", "ph-conc-2-after-panic", "ph-conc-2-after-ok", "ph-conc-2-after-undo-undo"), pb(1500, B{{2, 0}, {3, 0}}, "ph-conc-3"),
 			db(1500, B{{3, 0}, {4, 0}}, "ph-srv-seq", "ph-srv-2conn"), pb(1500, B{{1, 0}}, "ph-srv-seq", "ph-srv-2conn")),
 	}
 
 	c20two := []string{"codec:enc-req10-ttlv||enc-req14-ttlv", "codec:enc-req10-ttlv||dec-req12-ttlv", "codec:enc-resp14-xml||enc-resp12-json", "codec:enc-create11-xml||enc-create14-ttlv",
 		"codec:dec-resp13-xml||enc-resp14-xml", "codec:dec-create14-json||enc-create11-xml", "codec:reuse-10-then-14||reuse-14-then-10"}
-	c20same := []string{"codec:dec-resp13-xml||dec-resp13-xml", "codec:enc-req14-ttlv||enc-req14-ttlv", "codec:enc-resp14-xml||enc-resp14-xml"}
+	c20same := []string{"codec:enc-eckey-a-ttlv||enc-eckey-b-ttlv", "codec:enc-eckey-a-ttlv||enc-eckey-b-xml", "codec:dec-resp13-xml||dec-resp13-xml", "codec:enc-req14-ttlv||enc-req14-ttlv", "codec:enc-resp14-xml||enc-resp14-xml"}
 	c02heavy := []string{"codec:dec-req12-ttlv||dec-req12-ttlv", "codec:dec-create14-json||dec-create14-json"}
 	c02conc := []string{"codec:dec-resp13-xml||dec-resp13-xml",
 		"codec:dec-trunc-req12-ttlv||dec-req12-ttlv", "codec:dec-trunc-resp13-xml||dec-trunc-resp13-xml", "codec:dec-trunc-create14-json||dec-create14-json"}
@@ -219,6 +219,18 @@ func init() {
 		Pre:         codecPre,
 		Quick:       cat(pb(100, B{{1, 0}, {2, 0}}, c02conc...), split(8, pb(100, B{{1, 0}, {2, 0}}, c02heavy...))),
 		Thorough:    cat(pb(1500, B{{2, 0}, {3, 0}, {4, 0}}, c02conc...), split(16, pb(1500, B{{2, 0}, {3, 0}}, c02heavy...))),
+	}
+	c14conc := []string{"codec:enc-eckey-a-ttlv||enc-eckey-b-ttlv", "codec:enc-eckey-a-ttlv||enc-eckey-b-xml", "codec:enc-eckey-a-json||enc-eckey-b-xml"}
+	plans["C14"] = Plan{
+		Post:  mergeSeqEvidence("C14"),
+		Level: "exploration",
+		Rule: "all interleavings (bounded preemptions; scheduling points at the plan-cache operations of the instrumented codec and around writes to variables captured by its cached closures, caches cold) of two threads " +
+			"encoding transparent EC private keys with different scalars at once, in the three encodings: each encoding must carry its own key. " + boundingNote,
+		Assumptions: []string{},
+		Keep:        hasPrefix("fail:codec-result", "panic:"),
+		Pre:         codecPre,
+		Quick:       pb(100, B{{1, 0}, {2, 0}}, c14conc...),
+		Thorough:    pb(1500, B{{2, 0}, {3, 0}}, c14conc...),
 	}
 	plans["C05"] = Plan{
 		Post:  mergeSeqEvidence("C05"),
@@ -253,7 +265,7 @@ func init() {
 			"through one freshly built executor whose stages yield, and of 2-3 concurrent callers through one kmipclient.Client with yielding middlewares over a real (in-memory) connection; each request's own trace must be the reference trace, and on the client the response must be the caller's own and the transport must be reached exactly once per continuation call. " + boundingNote,
 		Assumptions: []string{"reads of plain shared memory are not scheduling points (only writes are)"},
 		Keep:        hasPrefix("fail:middleware-chain", "panic:"),
-		Quick:       cat(pb(100, B{{1, 0}, {2, 0}}, "mw-conc-2x2", "mw-conc-2x2-retry"), pb(100, B{{1, 0}}, "mw-conc-2x3", "mw-conc-3x2"), db(100, B{{1, 0}, {2, 0}}, "cmw-conc-2x2", "cmw-conc-2x2-retry", "cmw-conc-3x1")),
-		Thorough:    cat(pb(1500, B{{2, 0}, {3, 0}}, "mw-conc-2x2", "mw-conc-2x2-retry", "mw-conc-2x3"), pb(1500, B{{2, 0}}, "mw-conc-3x2"), db(1500, B{{3, 0}, {4, 0}}, "cmw-conc-2x2", "cmw-conc-2x2-retry", "cmw-conc-3x1"), pb(1500, B{{0, 0}, {1, 0}}, "cmw-conc-2x2", "cmw-conc-2x2-retry")),
+		Quick:       cat(pb(100, B{{1, 0}, {2, 0}}, "mw-conc-2x2", "mw-conc-2x2-retry"), pb(100, B{{1, 0}}, "mw-conc-2x3", "mw-conc-3x2"), db(100, B{{1, 0}, {2, 0}}, "cmw-conc-2x2", "cmw-conc-2x2-retry", "cmw-conc-3x1", "cmw-conc-2x2-libmw")),
+		Thorough:    cat(pb(1500, B{{2, 0}, {3, 0}}, "mw-conc-2x2", "mw-conc-2x2-retry", "mw-conc-2x3"), pb(1500, B{{2, 0}}, "mw-conc-3x2"), db(1500, B{{3, 0}, {4, 0}}, "cmw-conc-2x2", "cmw-conc-2x2-retry", "cmw-conc-3x1", "cmw-conc-2x2-libmw"), pb(1500, B{{0, 0}, {1, 0}}, "cmw-conc-2x2", "cmw-conc-2x2-retry")),
 	}
 }
